@@ -141,6 +141,9 @@ def own_program(rng, wide=False):
                     vals = [rng.choice(["1", "0", "(1 + 2)", "%d" % rng.randrange(1 << min(int(w), 12))]
                                        + ([rng.choice(known) + "`" + w] if known else []))
                             for _ in range(k)]
+                    if rng.random() < 0.06:
+                        # an element written over several lines (a block expression)
+                        vals[rng.randrange(k)] = rng.choice(["{\n        1\n    }", "{\n        t = 1\n        t + 1\n\n    }"])
                     if int(w) % unit:
                         state["dirty"] = True
                 lines.append("    #d%s %s%s" % (w, rng.choice([", ", ",", " , "]).join(vals), cm))
